@@ -80,6 +80,12 @@ structure Intrusion where
   deriving Repr, Inhabited
 
 structure WireReport where
+  /-- (sink, colour, producer): a producer planned for a *scalar* operand of the sink is visible to one
+  of its wildcard (each / anything / everything) operands -/
+  pollution : List (Nat × Nat × Nat) := []
+  /-- (sink, producer): a planned producer is connected only on a colour on which the sink reads none
+  of the signals it may emit -/
+  unselected : List (Nat × Nat) := []
   intrusions : List Intrusion
   /-- planned edges (source, sink) with no physical connection on either colour -/
   missing : List (Nat × Nat)
@@ -87,9 +93,22 @@ structure WireReport where
   unjustified : List (Nat × Nat)
   deriving Repr, Inhabited
 
-def wireCheck (bp : Blueprint) (circ : Circuit) (intended : Array (List Nat)) (explicit : List (Nat × Nat))
-    (anchors : List Nat) : WireReport :=
+def wireCheck (bp : Blueprint) (circ : Circuit) (intended0 : Array (List Nat)) (explicit : List (Nat × Nat))
+    (anchors : List Nat) (sources : List Nat := []) (wild : List (Nat × List Nat) := []) : WireReport :=
   let n := bp.ents.size
+  let comp := bp.components
+  let slot := Blueprint.slot
+  let outC (j colour : Nat) : Nat := match bp.ents[j]? with | some e => Blueprint.outConn e colour | none => colour
+  -- a module partner of an intended producer (explicitly wired to it, outputs on one network) is intended too:
+  -- the two gates of a memory cell drive the cell's network together
+  let shareOut (s q : Nat) : Bool := [1, 2].any (fun c => comp.getD (slot s (outC s c)) 0 == comp.getD (slot q (outC q c)) 1)
+  let intended : Array (List Nat) := intended0.map (fun l =>
+    l ++ l.flatMap (fun s => explicit.filterMap (fun (a, b) =>
+      if a == s && b != s && shareOut s b then some b else if b == s && a != s && shareOut s a then some a else none)))
+  -- only entities read through `.output` emit anything; other circuit-controlled entities are pure sinks
+  let emits (p : Nat) : SigSet := match circ.kind p with
+    | .controlled _ => if sources.contains p then .all else .of []
+    | k => k.mayEmit
   let isAnchor (i : Nat) : Bool := anchors.contains i
   let intrusions : List Intrusion := (List.range n).flatMap (fun i =>
     let k := circ.kind i
@@ -102,19 +121,16 @@ def wireCheck (bp : Blueprint) (circ : Circuit) (intended : Array (List Nat)) (e
       ps.filterMap (fun p =>
         if p == i && (match k with | .const _ => true | _ => false) then none else
         if (intended.getD i []).contains p then none else
-        match reads.inter (circ.kind p).mayEmit with
+        match reads.inter (emits p) with
         | some s => some { sink := i, colour, producer := p, sig := s }
         | none => none)))
   let missing : List (Nat × Nat) := (List.range n).flatMap (fun i =>
-    (intended.getD i []).filterMap (fun s =>
+    (intended0.getD i []).filterMap (fun s =>
       if (circ.prodR.getD i []).contains s || (circ.prodG.getD i []).contains s then none
       else if explicit.contains (s, i) || explicit.contains (i, s) then none
       else some (s, i)))
   -- justified connectivity
-  let comp := bp.components
   let par0 : Array Nat := Array.range (4 * n)
-  let slot := Blueprint.slot
-  let outC (j colour : Nat) : Nat := match bp.ents[j]? with | some e => Blueprint.outConn e colour | none => colour
   let par1 := (List.range n).foldl (fun par i =>
     (intended.getD i []).foldl (fun par s =>
       [1, 2].foldl (fun par colour =>
@@ -135,6 +151,34 @@ def wireCheck (bp : Blueprint) (circ : Circuit) (intended : Array (List Nat)) (e
     match slots.find? (fun y => comp.getD y y == c) with
     | some r => if r != x && ufFind par2 r != ufFind par2 x then some (r, x) else none
     | none => none)
-  { intrusions, missing, unjustified }
+  let readsWild (k : Kind) (colour : Nat) : Bool := match k.reads colour with | .all => true | _ => false
+  let pollution : List (Nat × Nat × Nat) := wild.flatMap (fun (i, ws) =>
+    let k := circ.kind i
+    [1, 2].flatMap (fun colour =>
+      if !readsWild k colour then [] else
+      let ps := if colour == 1 then circ.prodR.getD i [] else circ.prodG.getD i []
+      ps.filterMap (fun p =>
+        if ws.contains p then none
+        else if (intended.getD i []).contains p then
+          (match emits p with | .of [] => none | _ => some (i, colour, p))
+        else none)))
+  let unselected : List (Nat × Nat) := (List.range n).flatMap (fun i =>
+    let k := circ.kind i
+    let skip := match k with | .const _ => true | .pole => true | _ => false
+    if skip then [] else
+    (intended0.getD i []).filterMap (fun p =>
+      let onR := (circ.prodR.getD i []).contains p
+      let onG := (circ.prodG.getD i []).contains p
+      if !onR && !onG then none else
+      let seen (colour : Nat) : Bool := ((k.reads colour).inter (emits p)).isSome
+      if (onR && seen 1) || (onG && seen 2) then none else some (i, p)))
+  -- a producer planned for a wildcard operand must be visible on a colour that operand reads
+  let wildUnselected : List (Nat × Nat) := wild.flatMap (fun (i, ws) =>
+    let k := circ.kind i
+    ws.filterMap (fun p =>
+      let ok := [1, 2].any (fun colour =>
+        readsWild k colour && (if colour == 1 then circ.prodR.getD i [] else circ.prodG.getD i []).contains p)
+      if ok then none else some (i, p)))
+  { pollution, unselected := unselected ++ wildUnselected, intrusions, missing, unjustified }
 
 end Facto
